@@ -5,6 +5,7 @@ import numqi
 from symnp import ir, scalars as S, arrays as A, facade
 from symnp.scalars import SC
 from . import common as H
+from . import torchsup as TS
 
 TOL = 1e-9
 
@@ -65,8 +66,24 @@ def _c(p, key):
     return a[..., 0] + 1j * a[..., 1]
 
 
+BACKEND = {
+    'matrix_to_gellmann_basis': lambda a, t: numqi.gellmann.matrix_to_gellmann_basis(a[0]),
+    'gellmann_basis_to_matrix': lambda a, t: numqi.gellmann.gellmann_basis_to_matrix(a[0]),
+    'dm_to_gellmann_basis': lambda a, t: numqi.gellmann.dm_to_gellmann_basis(a[0]),
+    'dm_to_gellmann_basis(with_rho0)': lambda a, t: numqi.gellmann.dm_to_gellmann_basis(a[0], with_rho0=True),
+    'gellmann_basis_to_dm': lambda a, t: numqi.gellmann.gellmann_basis_to_dm(a[0]),
+    'get_density_matrix_distance2': lambda a, t: numqi.gellmann.get_density_matrix_distance2(a[0], a[1]),
+}
+
+
 def replay(p):
     what, d = p['what'], p['d']
+    if what == 'backend':
+        arrs = [_c(p, k) for k in p['names']]
+        if p.get('real'):
+            arrs = [np.real(a) for a in arrs]
+        bad, msg = TS.replay_backend(BACKEND[p['fn']], arrs)
+        return bad, f"{p['fn']} d={d} (shapes {[a.shape for a in arrs]}): {msg}"
     G = numeric_basis(d)
     if what == 'basis':
         got = numqi.gellmann.all_gellmann_matrix(d)
@@ -132,7 +149,7 @@ def run(chk):
     chk.register_replayer('gm', replay)
     dims = [2, 3, 4, 5] if quick else [2, 3, 4, 5, 6, 7]
     chk.bound(d=dims, matrices='arbitrary complex d x d, fully symbolic', batch_shapes='(), (2,), (2,2) for d<=3', tensor_n='1 (all d), 2 (d=2)')
-    chk.out_of_claim('torch (scatter) backend; float32; d above the bound; float rounding')
+    chk.out_of_claim('float32; d above the bound; float rounding; torch.scatter with duplicate indices (not produced by this code: checked on every call)')
     ctx = S.new_ctx()
     gm = numqi.gellmann
     with facade.patched():
@@ -231,6 +248,27 @@ def run(chk):
                         key='get_density_matrix_distance2',
                         replay=('gm', lambda m, rho=rho, sig=sig, d=d: payload(m, {'rho': rho, 'sigma': sig}, what='dm_dist', d=d)))
                 chk.add(f'reach dm [d={d}]', ctx.facts + [tr1, tr1s], ir.TRUE, kind='reach')
+    # ---- PyTorch branches (cumsum / einsum / scatter / diag_embed path) == NumPy branches on the same symbolic input
+    import random as _random
+    trng = _random.Random(chk.seed + 1)
+    for d in dims[:3]:
+        def be(fn, arrs, names, real=False, d=d):
+            rp = ('gm', lambda m, fn=fn, arrs=arrs, names=names: payload(m, dict(zip(names, arrs)), what='backend', d=d, fn=fn, names=names, real=real))
+            TS.backend_equiv(chk, f'{fn} [d={d}, shapes {[tuple(a.shape) for a in arrs]}]', BACKEND[fn], arrs, rp, fn, rng=trng)
+        be('matrix_to_gellmann_basis', [H.cx_array(f'ta{d}', (d, d))], ['A'])
+        be('gellmann_basis_to_matrix', [H.cx_array(f'tw{d}', d * d)], ['w'])
+        be('gellmann_basis_to_matrix', [H.re_array(f'tx{d}', d * d)], ['w'], True)
+        be('gellmann_basis_to_dm', [H.re_array(f'tv{d}', d * d - 1)], ['w'], True)
+        rho, sig = H.herm_array(f'tr{d}', d), H.herm_array(f'ts{d}', d)
+        be('dm_to_gellmann_basis', [rho], ['rho'])
+        be('dm_to_gellmann_basis(with_rho0)', [rho], ['rho'])
+        be('get_density_matrix_distance2', [rho, sig], ['rho', 'sigma'])
+        if d <= 3:
+            be('matrix_to_gellmann_basis', [H.cx_array(f'tb{d}', (2, d, d))], ['A'])
+            be('gellmann_basis_to_matrix', [H.cx_array(f'tc{d}', (2, d * d))], ['w'])
+            be('gellmann_basis_to_dm', [H.re_array(f'td{d}', (2, d * d - 1))], ['w'], True)
+            be('dm_to_gellmann_basis', [H.cx_array(f'te{d}', (2, d, d))], ['rho'])
+    with facade.patched():
         # 5. tensor_n = 2 (d=2): orthogonality Tr(Gi Gj) = 4 delta
         G2 = gm.all_gellmann_matrix(2, tensor_n=2)
         G2p = A.plain(G2) if isinstance(G2, A.SymArray) else G2
